@@ -254,11 +254,15 @@ class Findings:
         self.open: List[dict] = []
         self.fixed: List[str] = []
         self._explicit_cache: Dict[str, set] = {}
-        if os.path.exists(self.path):
-            with open(self.path) as fh:
-                data = json.load(fh)
-            self.open = [e for e in data.get("open", [])]
-            self.fixed = list(data.get("fixed", []))
+        import glob
+
+        # the committed file, plus per-property fragments known/Cxx.findings.json (same format; merged view)
+        for path in [self.path] + sorted(glob.glob(os.path.join(VERIF_DIR, "known", "*.findings.json"))):
+            if os.path.exists(path):
+                with open(path) as fh:
+                    data = json.load(fh)
+                self.open.extend(e for e in data.get("open", []))
+                self.fixed.extend(data.get("fixed", []))
 
     def for_property(self, prop: str) -> List[dict]:
         return [e for e in self.open if e["property"] == prop]
